@@ -13,17 +13,17 @@ Definition sub_t := (string * (list Q * list Q))%type.
 
 (* observed region: pmin, pmax, dims, units *)
 Definition oregion := (list Q * list Q * list string * list string)%type.
-(* observed mesh: region, n, subregions *)
-Definition omesh := (oregion * list Z * list sub_t)%type.
+(* observed mesh: region, n, subregions, bc *)
+Definition omesh := (oregion * list Z * list sub_t * string)%type.
 (* observed field: mesh, values (C order, cell index ++ component), validity, vdims, mapping *)
 Definition ofield := (omesh * list Q * list bool * list string * list (string * string))%type.
 
 Inductive c12_case :=
 | CRegion (exact inplace : bool) (p1 p2 : list Q) (ds us : list string)
           (a b : string) (k : Z) (ref : option (list Q)) (obs : option oregion)
-| CMesh (exact inplace : bool) (p1 p2 : list Q) (ds us : list string) (ns : list Z) (sbs : list sub_t)
+| CMesh (exact inplace : bool) (p1 p2 : list Q) (ds us : list string) (ns : list Z) (sbs : list sub_t) (bcs : string)
         (a b : string) (k : Z) (ref : option (list Q)) (obs : option omesh)
-| CField (exact inplace : bool) (p1 p2 : list Q) (ds us : list string) (ns : list Z) (sbs : list sub_t)
+| CField (exact inplace : bool) (p1 p2 : list Q) (ds us : list string) (ns : list Z) (sbs : list sub_t) (bcs : string)
          (nv : nat) (vals : list Q) (valid : list bool) (vds : list string) (vm : list (string * string))
          (a b : string) (k : Z) (ref : option (list Q)) (obs : option ofield).
 
@@ -55,11 +55,26 @@ Definition sub_close (t sc : Q) (ds us : list string) (s : string * region) (o :
   qlist_close t sc (pmin (snd s)) (fst (snd o)) && qlist_close t sc (pmax (snd s)) (snd (snd o)) &&
   strlist_eqb (dims (snd s)) ds && strlist_eqb (units (snd s)) us.
 
+(* bc names a SET of periodic axes (letter order is not significant); the keywords name no axis *)
+Fixpoint letter_in (c : Ascii.ascii) (s : string) : bool :=
+  match s with
+  | EmptyString => false
+  | String h t => Ascii.eqb c h || letter_in c t
+  end.
+Fixpoint letters_sub (s1 s2 : string) : bool :=
+  match s1 with
+  | EmptyString => true
+  | String h t => letter_in h s2 && letters_sub t s2
+  end.
+Definition bc_match (a b : string) : bool :=
+  if bc_keyword a || bc_keyword b then String.eqb a b else letters_sub a b && letters_sub b a.
+
 Definition mesh_close (t sc : Q) (m : mesh) (o : omesh) : bool :=
   match o with
-  | (oreg, ons, osubs) =>
+  | (oreg, ons, osubs, obc) =>
       region_close t sc (reg m) oreg && zlist_eqb (n m) ons &&
-      forallb2 (sub_close t sc (dims (reg m)) (units (reg m))) (subs m) osubs
+      forallb2 (sub_close t sc (dims (reg m)) (units (reg m))) (subs m) osubs &&
+      bc_match (bc m) obc
   end.
 
 Definition pairlist_eqb (l1 l2 : list (string * string)) : bool :=
@@ -73,15 +88,15 @@ Definition check_C12 (c : c12_case) : bool :=
       | Err _, None => true
       | _, _ => false
       end
-  | CMesh ex ip p1 p2 ds us ns sbs a b k ref obs =>
-      let m := mkMesh (mk_reg p1 p2 ds us) ns "" (mk_subs ds us sbs) in
+  | CMesh ex ip p1 p2 ds us ns sbs bcs a b k ref obs =>
+      let m := mkMesh (mk_reg p1 p2 ds us) ns bcs (mk_subs ds us sbs) in
       match mesh_rotate90 ip m a b k ref, obs with
       | OK m', Some o => mesh_close (tol ex) (geom_scale p1 p2 ref) m' o
       | Err _, None => true
       | _, _ => false
       end
-  | CField ex ip p1 p2 ds us ns sbs nv vals valid vds vm a b k ref obs =>
-      let m := mkMesh (mk_reg p1 p2 ds us) ns "" (mk_subs ds us sbs) in
+  | CField ex ip p1 p2 ds us ns sbs bcs nv vals valid vds vm a b k ref obs =>
+      let m := mkMesh (mk_reg p1 p2 ds us) ns bcs (mk_subs ds us sbs) in
       let sh := znat ns in
       let f := mkField m nv (of_list (f0 QcOps) (sh ++ [nv]) (qcl vals)) (of_list true sh valid) vds vm in
       (length vals =? nprod (sh ++ [nv]))%nat && (length valid =? nprod sh)%nat &&
